@@ -384,26 +384,43 @@ fn replace_word(text: &str, old: &str, new: &str) -> String {
 /// R25: the templates name locals of the repository's functions (in invariants, spliced ghost lines, statement anchors). When a function
 /// binds exactly as many names as it did when the templates were written and the only differences are consistent renamings to names that
 /// were not in use, the same renaming is applied to the template text of that body, so a renamed local is not a lost anchor.
-fn rename_map(old: &[String], new: &[String]) -> Option<Vec<(String, String)>> {
+fn rename_map(old: &[String], new: &[String]) -> Option<(Vec<(String, String)>, Vec<String>)> {
     if old.len() != new.len() || old == new { return None; }
     let mut map: BTreeMap<String, String> = BTreeMap::new();
+    let mut ambiguous: Vec<String> = vec![];       // an old name bound several times that now has several names (un-shadowing), or kept in one place
     for (o, n) in old.iter().zip(new.iter()) {
         if o == n { continue; }
         if old.contains(n) { return None; }              // not a pure renaming (e.g. two names swapped)
-        match map.get(o) { Some(prev) if prev != n => return None, _ => { map.insert(o.clone(), n.clone()); } }
+        match map.get(o) { Some(prev) if prev != n => { if !ambiguous.contains(o) { ambiguous.push(o.clone()); } }, _ => { map.insert(o.clone(), n.clone()); } }
     }
-    // a name that is kept somewhere but renamed elsewhere would be ambiguous in free text
-    for (o, n) in old.iter().zip(new.iter()) { if o == n && map.contains_key(o) { return None; } }
-    Some(map.into_iter().collect())
+    for (o, n) in old.iter().zip(new.iter()) { if o == n && map.contains_key(o) && !ambiguous.contains(o) { ambiguous.push(o.clone()); } }
+    for a in &ambiguous { map.remove(a); }
+    Some((map.into_iter().collect(), ambiguous))
 }
 
-fn rename_spec(spec: &BodySpec, map: &[(String, String)]) -> BodySpec {
+fn mentions_word(text: &str, w: &str) -> bool { replace_word(text, w, "\u{1}") != text }
+
+/// None when the template text of this body mentions a name whose renaming is ambiguous (then nothing is renamed: lost anchors as before)
+fn rename_spec(spec: &BodySpec, map: &[(String, String)], ambiguous: &[String], old: &[String], newn: &[String]) -> Option<BodySpec> {
     let r = |t: &str| -> String { let mut x = t.to_string(); for (o, n) in map { x = replace_word(&x, o, n); } x };
     let mut s = spec.clone();
+    // `let name` anchors are positional (the ord-th binding of that name): they follow the binding even when the name is ambiguous
+    for e in s.after_let.iter_mut() {
+        if e.0.starts_with('=') { continue; }
+        let mut seen = 0usize;
+        for (k, o) in old.iter().enumerate() {
+            if *o == e.0 { if seen == e.1 { if newn[k] != *o { let cnt = newn[..k].iter().filter(|x| **x == newn[k]).count(); e.0 = newn[k].clone(); e.1 = cnt; } break; } seen += 1; }
+        }
+    }
+    let free_text: Vec<&String> = s.loops.values().chain(std::iter::once(&s.prologue)).chain(std::iter::once(&s.epilogue))
+        .chain(s.after_let.iter().map(|e| &e.3)).chain(s.before_stmt.iter().map(|e| &e.0)).chain(s.before_stmt.iter().map(|e| &e.2))
+        .chain(s.after_stmt.iter().map(|e| &e.0)).chain(s.after_stmt.iter().map(|e| &e.2)).chain(s.replace.iter().map(|e| &e.0)).chain(s.replace.iter().map(|e| &e.1)).collect();
+    if ambiguous.iter().any(|a| free_text.iter().any(|t| mentions_word(t, a))) { return None; }
+    drop(free_text);
     for v in s.loops.values_mut() { *v = r(v); }
     s.prologue = r(&s.prologue);
     s.epilogue = r(&s.epilogue);
-    for e in s.after_let.iter_mut() { if !e.0.starts_with('=') { e.0 = r(&e.0); } e.3 = r(&e.3); }
+    for e in s.after_let.iter_mut() { e.3 = r(&e.3); }
     for e in s.before_stmt.iter_mut() { e.0 = r(&e.0); e.2 = r(&e.2); }
     for e in s.after_stmt.iter_mut() { e.0 = r(&e.0); e.2 = r(&e.2); }
     for e in s.replace.iter_mut() { e.0 = r(&e.0); e.1 = r(&e.1); }
@@ -424,7 +441,7 @@ fn rename_spec(spec: &BodySpec, map: &[(String, String)]) -> BodySpec {
         if spec.tmpl_params.iter().any(|p| p == o) { alias.push_str(&format!("        let {} = {};\n", n, o)); }
     }
     if !alias.is_empty() { s.prologue = format!("{}{}", alias, s.prologue); }
-    s
+    Some(s)
 }
 
 fn norm_ws(s: &str) -> String {
@@ -1637,10 +1654,10 @@ fn main() {
             let now_bound = collect_bindings(f.block);
             let bkey = format!("{}::{}", spec.file, spec.func);
             if !bindings_out.iter().any(|l: &String| l.starts_with(&format!("{}\t", bkey))) { bindings_out.push(format!("{}\t{}", bkey, now_bound.join(" "))); }
-            let spec: BodySpec = match pinned_bindings.get(&bkey).and_then(|old| rename_map(old, &now_bound)) {
-                Some(map) => {
+            let spec: BodySpec = match pinned_bindings.get(&bkey).and_then(|old| rename_map(old, &now_bound).and_then(|(map, amb)| rename_spec(&spec, &map, &amb, old, &now_bound).map(|s| (s, map)))) {
+                Some((renamed, map)) => {
                     notes.push(format!("R25 locals of {} renamed consistently ({}): the template text of this body is renamed with them", spec.func, map.iter().map(|(o, n)| format!("{}->{}", o, n)).collect::<Vec<_>>().join(", ")));
-                    rename_spec(&spec, &map)
+                    renamed
                 }
                 None => spec.clone(),
             };
